@@ -99,16 +99,20 @@ CLAIMED = {
              'model: C05_decode_data and C05_decode_str -- for EVERY codeword list the data decoder (ASCII, C40/Text, X12, EDIFACT, Base256, '
              'ECI designators, macro handling, padding check) and the string decoder (ECI span slicing, ISO 8859 tables, UTF-8) return a value '
              'or an error: bounds of every table index, u8 additions, termination of the mode loop (measure 2*remaining+mode) and the ECI '
-             'span invariant are proved; C05_try_from_bits -- the same for every bool vector and width; C05_codewords_total and C05_decode_glue -- for every pixel array the glue of DataMatrix::decode (parsing, placement read-out of any content, data/error split, data decoder) cannot panic: a panic of decode() can only originate inside decode_error. PARTIAL: for the Reed-Solomon decoder '
-             'only the shape of successful results is proved (C09); that no received word drives the Levinson-Durbin/Bjoerck-Pereyra code '
-             'out of bounds, into a division by zero or into its own debug assertions is NOT a theorem. That part, and the whole-symbol entry '
-             'point, rest on the correspondence run in debug AND release builds with panics caught: random words for all 48 sizes, words '
+             'span invariant are proved; C05_try_from_bits -- the same for every bool vector and width; C05_codewords_total and C05_decode_glue -- for every pixel array the glue of DataMatrix::decode (parsing, placement read-out of any content, data/error split, data decoder) cannot panic: a panic of decode() can only originate inside decode_error; '
+             'C05_rs_decoder, C05_rs_locator and C05_decode_symbol -- for EVERY received word of a symbol\'s length (resp. every pixel array) the '
+             'syndrome / Levinson-Durbin / Chien / Bjoerck-Pereyra code and the application of the corrections stay inside their slices, '
+             'never divide by zero (pivots non-zero by the branch conditions; reported roots non-zero and pairwise different by a sweep over '
+             'the antilog table), never underflow, never trip a length or range assertion, and terminate: the only panic site not excluded is '
+             'PAssertLD, the cfg!(debug_assertions) self-check of identities (3)/(4) inside the Levinson-Durbin loop, which does not exist in '
+             'release builds. PARTIAL: that this self-check never fires in a debug build (= correctness of the recursion) is NOT a theorem; '
+             'it rests on the correspondence run in debug AND release builds with panics caught: random words for all 48 sizes, words '
              'constructed to have t or more leading zero syndromes, garbage symbols with a valid finder pattern. Six panics found on the '
              'pinned tree were repaired (fix: commits).',
         design_ref='DESIGN.md 6/C05',
         note='Trusted: Coq kernel, translator (mode tables, charset tables), extraction, harness with catch_unwind; allocation failure and '
              'stack exhaustion outside the model. No axioms.',
-        technique='Coq proof: explicit panic outcomes + bounds/termination invariants (full for data/string decoder and bitmap parser; RS decoder partial) + debug/release differential correspondence'),
+        technique='Coq proof: explicit panic outcomes + bounds/termination invariants (full for data/string decoder, bitmap parser and, for release builds, the RS decoder and the whole-symbol entry point; debug builds modulo the Levinson-Durbin self-check) + debug/release differential correspondence'),
     'C13': dict(
         text='Theorems (Coq, axiom-free): C13_plan_modes_enabled -- every mode named by a plan of the optimiser is enabled, for every input, list, '
              'mode set, start mode (enabled or not) and every admissible sort (invariant over the planner loop, nothing about costs); '
